@@ -1000,25 +1000,10 @@ func popsItself(info *types.Info, lit *ast.FuncLit, fld *types.Var) bool {
 func c01R7(c *Ctx, m *runnerModel) {
 	w := c.W
 	info := m.pkg.TypesInfo
-	sq := namedType(m.pkg, "statementQueue")
-	if sq == nil {
-		c.undecided("C01.R7", "type statementQueue not found")
-		return
-	}
-	fStmts := structFieldByType(sq, "[]*tree.Statement")
-	fPtr := structFieldByType(sq, "int")
-	if fStmts == nil || fPtr == nil {
-		c.undecided("C01.R7", "statementQueue fields not resolved")
-		return
-	}
-	var f *Func
-	for _, g := range w.FuncsIn(m.pkg) {
-		if g.Decl != nil && g.Decl.Recv != nil && typeStr(g.Sig().Recv().Type()) == "*ysgo.statementQueue" && g.Sig().Results().Len() == 2 {
-			f = g
-		}
-	}
+	fStmts, fPtr := m.fStmts, m.fPtr
+	f := m.fetch
 	if f == nil {
-		c.undecided("C01.R7", "no fetch method on *statementQueue")
+		c01R7Inline(c, m)
 		return
 	}
 	c.fn(f)
@@ -1144,7 +1129,7 @@ func c01R8(c *Ctx, m *runnerModel) {
 				// the constructor pushes on a local stack that becomes the field
 				if f == m.ctor {
 					if sel, ok := unparen(call.Fun).(*ast.SelectorExpr); ok {
-						if tv, ok := info.Types[sel.X]; ok && strings.HasPrefix(typeStr(tv.Type), "container.Stack[*ysgo.statementQueue]") {
+						if tv, ok := info.Types[sel.X]; ok && strings.HasPrefix(typeStr(tv.Type), "container.Stack[*"+typeStr(m.queueT)+"]") {
 							name, on = sel.Sel.Name, true
 						}
 					}
@@ -1197,18 +1182,20 @@ func popOnExhaustion(w *World, m *runnerModel, pop *ast.CallExpr) (bool, string)
 	child := ast.Node(pop)
 	for p := w.parent[pop]; p != nil; child, p = p, w.parent[p] {
 		if is, ok := p.(*ast.IfStmt); ok && child == ast.Node(is.Body) {
-			u, ok := unparen(is.Cond).(*ast.UnaryExpr)
-			if !ok || u.Op != token.NOT {
-				return false, "the pop is not guarded by the negated success flag of the fetch"
-			}
-			id := identOf(u.X)
-			if id == nil {
-				return false, "the pop is not guarded by the negated success flag of the fetch"
-			}
 			x := w.expander(m.next)
-			s := x.str(id)
-			if !strings.HasSuffix(s, "#1") || !strings.Contains(s, "."+m.fStack.Name()+".Peek()") {
-				return false, "the pop is guarded by " + s + ", not by the exhaustion of the top queue"
+			if !exhaustionTest(w, m, x, is.Cond) {
+				u, ok := unparen(is.Cond).(*ast.UnaryExpr)
+				if !ok || u.Op != token.NOT {
+					return false, "the pop is not guarded by the negated success flag of the fetch"
+				}
+				id := identOf(u.X)
+				if id == nil {
+					return false, "the pop is not guarded by the negated success flag of the fetch"
+				}
+				s := x.str(id)
+				if !strings.HasSuffix(s, "#1") || !strings.Contains(s, "."+m.fStack.Name()+".Peek()") {
+					return false, "the pop is guarded by " + s + ", not by the exhaustion of the top queue"
+				}
 			}
 			// followed by return of the recursive call
 			last := is.Body.List[len(is.Body.List)-1]
@@ -1469,4 +1456,174 @@ func c01R10(c *Ctx) {
 			c.ob("C01.R10", key, w.Pos(nestedWriters[0].pos), false, "written by "+nestedWriters[0].handler+" (rule '"+nestedWriters[0].rule+"' can contain itself) and read later at "+w.Pos(held[0].pos)+" ("+held[0].handler+", after children were walked): a nested occurrence overwrites it, so the outer construct is built from the inner one's state; per-construct state of a re-entrant rule must live in a closure variable or on a stack")
 		}
 	}
+}
+
+// c01R7Inline: the fetch is written out where it is used (no method on the cursor type). The same obligations, stated on
+// the function that reads statements[pointer]: on every path the read is followed by exactly one +1 of the pointer before
+// the function returns, nothing else moves the pointer, the index is guarded, and the element read is what becomes
+// lastStatement.
+func c01R7Inline(c *Ctx, m *runnerModel) {
+	w := c.W
+	info := m.pkg.TypesInfo
+	fStmts, fPtr := m.fStmts, m.fPtr
+	var sites []*Func
+	for _, g := range w.FuncsIn(m.pkg) {
+		if g.Body == nil || g.Lit != nil {
+			continue
+		}
+		has := false
+		walkNoLit(g.Body, func(n ast.Node) bool {
+			if ix, ok := n.(*ast.IndexExpr); ok && lastField(info, ix.X) == fStmts && lastField(info, ix.Index) == fPtr {
+				has = true
+			}
+			return true
+		})
+		if has {
+			sites = append(sites, g)
+		}
+	}
+	if len(sites) == 0 {
+		c.undecided("C01.R7", "no fetch method on the statement cursor and no function reading statements[pointer]")
+		return
+	}
+	for _, f := range sites {
+		c.fn(f)
+		var indexExpr *ast.IndexExpr
+		r := evtRule{
+			start: "idle",
+			prim: func(n ast.Node) []string {
+				switch n := n.(type) {
+				case *ast.IndexExpr:
+					if lastField(info, n.X) == fStmts && lastField(info, n.Index) == fPtr {
+						indexExpr = n
+						return []string{"READ"}
+					}
+					if lastField(info, n.X) == fStmts {
+						return []string{"READOTHER"}
+					}
+				case *ast.IncDecStmt:
+					if lastField(info, n.X) == fPtr {
+						if n.Tok == token.INC {
+							return []string{"INC"}
+						}
+						return []string{"BADSTEP"}
+					}
+				case *ast.AssignStmt:
+					for i, l := range n.Lhs {
+						if lastField(info, l) == fPtr {
+							if n.Tok == token.ADD_ASSIGN && exprStr(n.Rhs[i]) == "1" {
+								return []string{"INC"}
+							}
+							if b, ok := unparen(n.Rhs[i]).(*ast.BinaryExpr); ok && n.Tok == token.ASSIGN && b.Op == token.ADD && lastField(info, b.X) == fPtr && exprStr(b.Y) == "1" {
+								return []string{"INC"}
+							}
+							return []string{"BADSTEP"}
+						}
+					}
+				}
+				return nil
+			},
+			step: func(st, ev string) string {
+				switch {
+				case st == "idle" && ev == "READ":
+					return "read"
+				case st == "read" && ev == "INC":
+					return "advanced"
+				case strings.HasPrefix(st, "bad:"):
+					return ""
+				}
+				return "bad:" + ev + " while " + st
+			},
+			bad: func(st, ev string) string {
+				if strings.HasPrefix(st, "bad:") {
+					return "the cursor is used out of step (" + strings.TrimPrefix(st, "bad:") + "): want one read of statements[pointer] followed by one pointer+1, and nothing else"
+				}
+				return ""
+			},
+			ret: func(st string, ret *ast.ReturnStmt, kind string) string {
+				if st == "read" {
+					return "a path returns after reading statements[pointer] without advancing the pointer: the same statement would run again"
+				}
+				return ""
+			},
+		}
+		fs := runEVT(w, f, r)
+		seen := map[string]bool{}
+		for _, fd := range fs {
+			if !seen[fd.msg] {
+				seen[fd.msg] = true
+				c.ob("C01.R7", f.Name+"/fetch-once#"+itoa(len(seen)), w.Pos(fd.pos), false, fd.msg)
+			}
+		}
+		if len(seen) == 0 {
+			c.ob("C01.R7", f.Name+"/fetch-once", w.Pos(f.Decl.Pos()), true, "every path reads statements[pointer] at most once, advances the pointer exactly once after a read, and moves it nowhere else")
+		}
+		// the element read becomes lastStatement
+		x := w.expander(f)
+		stored, okStored := 0, true
+		walkNoLit(f.Body, func(n ast.Node) bool {
+			as, ok := n.(*ast.AssignStmt)
+			if !ok || len(as.Lhs) != len(as.Rhs) {
+				return true
+			}
+			for i, l := range as.Lhs {
+				if _, isSel := unparen(l).(*ast.SelectorExpr); isSel && lastField(info, l) == m.fLast && !isNilExpr(info, as.Rhs[i]) {
+					stored++
+					sv := x.str(as.Rhs[i])
+					if !strings.Contains(sv, "."+fStmts.Name()+"[") || !strings.HasSuffix(sv, "."+fPtr.Name()+"]") {
+						okStored = false
+					}
+				}
+			}
+			return true
+		})
+		if f == m.next {
+			c.ob("C01.R7", f.Name+"/returns-read-element", w.Pos(f.Decl.Pos()), okStored && stored > 0, map[bool]string{true: "the statement that becomes lastStatement is statements[pointer] as read before the increment", false: "the statement that becomes lastStatement is not the element read at the pointer"}[okStored && stored > 0])
+		}
+		if indexExpr != nil {
+			e := w.ent(f)
+			ok, how := e.proveIndexBelowLen(indexExpr)
+			c.ob("C01.R7", f.Name+"/index-guard", w.Pos(indexExpr.Pos()), ok, how)
+		}
+	}
+}
+
+// exhaustionTest: cond is true exactly when the cursor on top of the continuation stack has no statement left:
+// top.pointer >= len(top.statements) (or ==, or the negation of <), written either way round.
+func exhaustionTest(w *World, m *runnerModel, x *expander, cond ast.Expr) bool {
+	info := m.pkg.TypesInfo
+	neg := false
+	e := unparen(cond)
+	for {
+		u, ok := e.(*ast.UnaryExpr)
+		if !ok || u.Op != token.NOT {
+			break
+		}
+		neg = !neg
+		e = unparen(u.X)
+	}
+	b, ok := e.(*ast.BinaryExpr)
+	if !ok {
+		return false
+	}
+	isPtr := func(q ast.Expr) bool {
+		return lastField(info, q) == m.fPtr && strings.HasSuffix(x.str(q), "."+m.fStack.Name()+".Peek()."+m.fPtr.Name())
+	}
+	isLen := func(q ast.Expr) bool {
+		call, ok := unparen(q).(*ast.CallExpr)
+		return ok && isBuiltin(info, call, "len") && len(call.Args) == 1 && lastField(info, call.Args[0]) == m.fStmts && strings.HasSuffix(x.str(call.Args[0]), "."+m.fStack.Name()+".Peek()."+m.fStmts.Name())
+	}
+	op := b.Op
+	switch {
+	case isPtr(b.X) && isLen(b.Y):
+	case isLen(b.X) && isPtr(b.Y):
+		op = map[token.Token]token.Token{token.LSS: token.GTR, token.GTR: token.LSS, token.LEQ: token.GEQ, token.GEQ: token.LEQ, token.EQL: token.EQL, token.NEQ: token.NEQ}[op]
+	default:
+		return false
+	}
+	// as "pointer OP len"
+	if neg {
+		return op == token.LSS || op == token.NEQ
+	}
+	return op == token.GEQ || op == token.EQL
 }
